@@ -20,6 +20,7 @@ mod audit;
 mod brotli;
 mod model;
 mod patches;
+mod unordered;
 
 /// `shared-brotli-patch-decoder/src/rust_brotli.rs` is compiled into this crate by path (audit.rs); it
 /// names its error type as `crate::decode_error::DecodeError`.
@@ -1581,6 +1582,8 @@ fn body(run: &Run, replay: Option<&Value>) {
     timed("f1_bits", &audit::space_f1_bits);
     timed("rust_decoder", &audit::space_rust_decoder);
     timed("entry_points", &audit::space_entry_points);
+    // round 13: malformed offset arrays in the base font (src/unordered.rs)
+    timed("unordered_offsets", &unordered::space_unordered);
     if run.tier == Tier::Thorough {
         timed("four", old!(space_four));
     }
@@ -1634,6 +1637,7 @@ fn replay_case(ctx: &Ctx, case: &Value) {
         "mixed" => audit::replay_mixed(ctx, case, &mut l),
         "rust-decoder" => audit::space_rust_decoder(ctx),
         "entry-points" => audit::space_entry_points(ctx),
+        "unordered" => unordered::space_unordered(ctx),
         _ => println!("unknown replay kind {kind}"),
     }
 }
